@@ -4,6 +4,7 @@ FIX = {"src": "kani_fix.rs", "dest": "src/consensus/kani_fix.rs", "decl_in": "sr
 SAMP = {"src": "C17/kani_samp.rs", "dest": "src/disseminator/rotor/sampling_strategy/kani_samp.rs", "decl_in": SS, "decl": "pub(crate) mod kani_samp;"}
 # Kani build only: the ambient generator `rand::rng()` inside sampling_strategy.rs becomes an arbitrary
 # pre-drawn stream (kani_samp::ambient_rng).  Native replay keeps the real thread-local generator.
+AMBIENT2 = {"file": SS, "pattern": r"(?<![\w.:])rand::random\b", "replacement": "crate::disseminator::rotor::sampling_strategy::kani_samp::ambient_random", "optional": True}
 AMBIENT = {"file": SS, "pattern": r"rand::rng\(\)", "replacement": "crate::disseminator::rotor::sampling_strategy::kani_samp::ambient_rng()"}
 
 # Kani build only: parking_lot::Mutex (reaching it is a Kani 0.68 internal compiler error, intrinsics.rs:243)
@@ -105,7 +106,7 @@ SPEC = {
     "level_note": "Split into constructor kernels (symbolic stakes, constructed state inspected) and sample_quorum kernels (symbolic sampler state of fixed shape built by struct literal): a stake-dependent committee layout followed by sampling exceeds the memory cap (measured). Contents of stake-dependent vectors (owner ids in required_samples, medium_nodes entries, FA2 committee members) are not read back (memory cap); lengths and weights are. Random streams longer than the tape of each harness are outside its bound. Trusts Kani, CBMC (float bit-blasting), CaDiCaL/kissat; pointer-validity checks off.",
     "design_ref": "DESIGN.md §4 C17",
     "overlays": [FIX, SAMP, {"src": "C17/kani_c17.rs", "dest": "src/disseminator/rotor/sampling_strategy/kani_c17.rs", "decl_in": SS, "decl": "mod kani_c17;"}],
-    "redirects": [AMBIENT, MUTEX],
+    "redirects": [AMBIENT, AMBIENT2, MUTEX],
     "functions": [
         "disseminator::rotor::sampling_strategy::{UniformSampler, StakeWeightedSampler}::{new,sample}, IidQuorumSampler::{new,quorum_size,sample_quorum}",
         "DecayingAcceptanceSampler::{new,sample_one,reset,quorum_size,sample_quorum}",
